@@ -4,6 +4,9 @@ import re
 from base64 import a85decode
 from binascii import unhexlify
 
+# the six PDF white-space characters (plus VT, which a85decode skips by default)
+PDF_WHITESPACE = b"\x00\t\n\x0b\x0c\r "
+
 start_re = re.compile(rb"^\s*<?\s*~\s*")
 end_re = re.compile(rb"\s*~\s*>?\s*$")
 
@@ -24,7 +27,7 @@ def ascii85decode(data: bytes) -> bytes:
     """
     data = start_re.sub(b"", data)
     data = end_re.sub(b"", data)
-    return a85decode(data)
+    return a85decode(data, ignorechars=PDF_WHITESPACE)
 
 
 # the six PDF white-space characters (plus VT, which was always skipped here)
